@@ -785,6 +785,8 @@ def run(chk):
     chk.guard(rule_r6, chk, model)
     from .. import gens
     chk.guard(gens.apply, chk, "C10-R8", {"series"}, 5, "a generator of periods or variants consumed twice leaves later variants / later passes without data")
+    from .. import args as _args
+    chk.guard(_args.apply, chk, "C10-R90", {'series'}, 1)
     chk.assumptions = [
         "numpy element-wise functions preserve which cells are NaN (exemptions listed in NONDIRTY with reasons)",
         "implicit exceptions are not modelled: a path that raises leaves no obligation",
